@@ -10,7 +10,10 @@ MODULE = "Nice.Props.C09"
 THEOREMS = [f"Nice.Props.C09.{t}" for t in (
     "C09_rto_bounded", "C09_rto_bounded_init", "C09_backoff_doubles_to_ceiling", "C09_transmit_gives_up", "setStateClosed_reports", "C09_next_clock_finite", "C09_next_clock_le_4000")] + [
     f"Nice.Props.C09Window.{t}" for t in ("C09_scaled_buffer_fits_window_field", "C09_empty_buffer_advertises_open_window",
-                                          "C09_closed_test_matches_field")]
+                                          "C09_closed_test_matches_field")] + [
+    # the room a writer is offered (its only signal to wait or to go on) is computed by the code's own kernels, regenerated each run
+    f"Nice.Props.C10Kernels.{t}" for t in ("C10_available_send_space_is_code", "C10_no_send_space_after_fin",
+                                           "C10_buffered_plus_room_is_capacity")]
 TRUSTED = P.TRUSTED[:3] + [
     "liveness after healing is a tied simulation claim (healing schedules on the real code under a virtual clock), not a theorem",
 ]
